@@ -979,12 +979,20 @@ func Check(res *Result) []Fail {
 			lastReentry := map[int]string{}
 			bumpedSoFar := false
 			stampedSoFar := map[int]bool{}
+			stampsGiven := map[[2]int]int{}
 			var cur *st
 			for _, e := range res.Events {
 				switch e.Kind {
 				case "pp.seq":
 					msgStamp[e.ID] = st{e.B, e.A}
 					stampedSoFar[e.ID] = true
+					// R4: the sequence given is the number of stamps already given to this partition in this epoch
+					// (per-partition counters, all reset to 0 together with the epoch increment)
+					k := [2]int{e.P, e.B}
+					if e.A != stampsGiven[k] {
+						add("C05:stamp-not-next-in-partition-epoch", "message %d of partition %d was given sequence %d in epoch %d; %d stamps were given there before", e.ID, e.P, e.A, e.B, stampsGiven[k])
+					}
+					stampsGiven[k]++
 				case "ret.err":
 					if stampedSoFar[e.ID] {
 						bumpedSoFar = true
